@@ -151,6 +151,11 @@ let () =
       | "STAGE" :: toks -> stages := parse_stage toks :: !stages
       | "WMAX" :: [v] -> wmax := opt z_s v
       | "SCRIPT" :: i :: t :: steps -> Hashtbl.replace scripts (int_of_string i, int_of_string t) (List.map parse_step steps)
+      | "ACT" :: ["W"] ->
+          (* the processor's maintenance sweeps (claims of finished executions, ...): no step of the model - a live
+             workflow must look exactly as before *)
+          let s = get () in
+          print_endline ("  " ^ string_of_state s); print_endline "."
       | "ACT" :: rest ->
           let a = match rest with
             | ["D"; id; a] -> Deliver (nat_s id, b01 a)
